@@ -11,11 +11,12 @@ git -C /repo worktree remove --force "$wt" >/dev/null 2>&1
 git -C /repo worktree add -q --detach "$wt" HEAD || exit 2
 cleanup() { git -C /repo worktree remove --force "$wt" >/dev/null 2>&1; rm -rf "$wt"; }
 trap cleanup EXIT
-demo() { # run demo with the mutant author's paths rewritten to this worktree
-  local d
-  if [ -f "$m/demo.py" ]; then d="$wt/.demo.py"; else d="$wt/.demo.sh"; fi
-  sed -E "s#/tmp/wt/C[0-9]+#$wt#g" "$m/demo.${d##*.}" > "$d"
-  if [ "${d##*.}" = py ]; then (cd "$wt" && PYTHONPATH="$wt/src" timeout 600 /venv/bin/python "$d" >"$wt/.demo.out" 2>&1); else (cd "$wt" && PYTHONPATH="$wt/src" timeout 600 bash "$d" >"$wt/.demo.out" 2>&1); fi
+mname="$(basename "$m")"
+mkdir -p "$wt/seeded/$mname"
+for f in "$m"/*; do sed -E "s#/tmp/wt/C[0-9]+#$wt#g" "$f" > "$wt/seeded/$mname/$(basename "$f")"; done
+demo() { # run the demonstration from the same relative place the author used, paths rewritten to this worktree
+  local d="$wt/seeded/$mname"
+  if [ -f "$d/demo.py" ]; then (cd "$wt" && PYTHONPATH="$wt/src" timeout 900 /venv/bin/python "$d/demo.py" >"$wt/.demo.out" 2>&1); else (cd "$wt" && PYTHONPATH="$wt/src" timeout 900 bash "$d/demo.sh" >"$wt/.demo.out" 2>&1); fi
 }
 demo; r0=$?
 echo "demo without patch: exit $r0"
